@@ -65,14 +65,29 @@ class Script:
     iteration and Terminate ends the script.  Payloads / timestamps are fresh symbolic values."""
 
 
-def gen_script(ex, iters, max_len, kinds='ITW', payload_ty='u8', wm_contract=True, name='s',
-               payload=None, min_len=0, exact_len=None):
+def gen_script(ex, iters, max_len, kinds='ITW', payload_ty='u64', wm_contract=True, name='s',
+               payload=None, min_len=0, exact_len=None, ts_span=None):
     """Nondeterministically choose a script shape (forking) and fill it with symbolic data.
 
     With `wm_contract`, timestamps respect the watermark contract inside each iteration
     (elements after Watermark(t) have ts > t, watermarks strictly increase)."""
     out = []
     k = 0
+    base = None
+    if ts_span is not None:
+        # all timestamps of the script lie in [base, base + ts_span) for one symbolic base: keeps loops whose
+        # trip count depends on timestamp distances bounded
+        if isinstance(ts_span, tuple):
+            base, ts_span = Int('i64', ts_span[0]), ts_span[1]
+        else:
+            base = ex.fresh_int('i64', '%s_base' % name)
+            ex.assume(z3.And(base.v > -(1 << 40), base.v < (1 << 40)))
+
+    def fresh_ts(nm):
+        t = ex.fresh_int('i64', nm)
+        if base is not None:
+            ex.assume(z3.And(t.v >= base.z(), t.v < base.z() + ts_span))
+        return t
     for it in range(iters):
         ml = max_len[it] if isinstance(max_len, (list, tuple)) else max_len
         n = exact_len if exact_len is not None else min_len + ex.choose(ml - min_len + 1, '%s len' % name)
@@ -92,12 +107,12 @@ def gen_script(ex, iters, max_len, kinds='ITW', payload_ty='u8', wm_contract=Tru
                 out.append(se('Item', v))
             elif kind == 'T':
                 v = payload(ex, k) if payload else ex.fresh_int(payload_ty, '%s_v%d' % (name, k))
-                t = ex.fresh_int('i64', '%s_t%d' % (name, k))
+                t = fresh_ts('%s_t%d' % (name, k))
                 if wm_contract and last_wm is not None:
                     ex.assume(t.v > last_wm.v)
                 out.append(se('Timestamped', v, t))
             elif kind == 'W':
-                t = ex.fresh_int('i64', '%s_w%d' % (name, k))
+                t = fresh_ts('%s_w%d' % (name, k))
                 if wm_contract and last_wm is not None:
                     ex.assume(t.v > last_wm.v)
                 last_wm = t
@@ -211,3 +226,99 @@ def bv_min(vals):
     for v in vals[1:]:
         acc = z3.If(v < acc, v, acc) if (is_sym(v) or is_sym(acc)) else min(v, acc)
     return acc
+
+
+# ---------------------------------------------------------------------------------------
+# native execution hook (replay of counterexamples, differential validation of the executor)
+# ---------------------------------------------------------------------------------------
+
+def concrete_int(ex, v):
+    """value of an Int under the (pinned) path condition"""
+    if v.concrete:
+        return v.v
+    m = ex.model_for(True)
+    if m is None:
+        raise Infeasible()
+    from .values import norm
+    return norm(v.ty, m.eval(v.v, model_completion=True).as_long())
+
+
+def encode_script(ex, script, keyed):
+    """SPEC.md element encoding"""
+    out = []
+    for e in script:
+        tag = SE_VARIANTS[e.variant]
+        out.append(tag)
+        if e.variant in ('Item', 'Timestamped'):
+            pl = e.fields[0]
+            if keyed:
+                out += [concrete_int(ex, pl.fields[0]), concrete_int(ex, pl.fields[1])]
+            else:
+                out += [0, concrete_int(ex, pl)]
+            if e.variant == 'Timestamped':
+                out.append(concrete_int(ex, e.fields[1]))
+        elif e.variant == 'Watermark':
+            out.append(concrete_int(ex, e.fields[0]))
+    return out
+
+
+def _parse_payload(txt):
+    from .models_coll import VecModel
+    txt = txt.strip()
+    if ':' in txt and not txt.startswith('['):
+        k, x = txt.split(':', 1)
+        return Agg('tuple', None, [Int('u64', int(k)), _parse_payload(x)])
+    if txt.startswith('['):
+        inner = txt[1:-1].strip()
+        return VecModel([Int('u64', int(t)) for t in inner.split(',')] if inner else [])
+    return Int('u64', int(txt))
+
+
+def parse_token(tok, window_result=False):
+    tok = tok.strip()
+    if tok == 'B':
+        return se('FlushBatch')
+    if tok == 'F':
+        return se('FlushAndRestart')
+    if tok == 'E':
+        return se('Terminate')
+    if tok.startswith('W('):
+        return se('Watermark', Int('i64', int(tok[2:-1])))
+    if tok.startswith('I('):
+        v = _parse_payload(tok[2:-1])
+        return Enum('WindowResult', 'Item', 0, [v]) if window_result else se('Item', v)
+    if tok.startswith('T('):
+        body, ts = tok[2:-1].rsplit('@', 1)
+        v = _parse_payload(body)
+        if window_result:
+            return Enum('WindowResult', 'Timestamped', 1, [v, Int('i64', int(ts))])
+        return se('Timestamped', v, Int('i64', int(ts)))
+    raise Unsupported('native token %r' % tok)
+
+
+def native_run(ex, kind, params, script, keyed=False):
+    """Run the real operator on the concretised script. -> raw text (or raises RustPanic)"""
+    runner, prof = ex.env['native']
+    ex.env['native_used'] = True
+    args = [len(params)] + list(params) + encode_script(ex, script, keyed)
+    txt = runner(kind, args)[prof]
+    ex.env['native_out'] = txt
+    if txt == 'PANIC':
+        raise RustPanic('the real build panicked on this input')
+    if txt.startswith(('BADARGS', 'UNKNOWN', 'NORESULT', 'TIMEOUT')):
+        raise Unsupported('native driver: ' + txt)
+    return txt
+
+
+def native_operator(ex, kind, params, script, keyed=False):
+    txt = native_run(ex, kind, params, script, keyed)
+    toks = txt.split()
+    if toks and toks[-1] == 'OVERRUN':
+        raise Violation('operator does not terminate on this input (native run overran)')
+    return [parse_token(t) for t in toks]
+
+
+def native_manager(ex, kind, params, script):
+    txt = native_run(ex, kind, params, script)
+    calls = txt.split('|')
+    return [(i, [parse_token(t, True) for t in c.split()]) for i, c in enumerate(calls)]
